@@ -154,6 +154,13 @@ static std::string check_c04(const KV &c) {
         if (o.bytes() != ref::prf(key, msg, outlen)) return "ascon_prf (out " + num(outlen) + ") differs from the ASCON-Prf reference";
         // incremental with a declared length that differs from what is squeezed
         ascon_prf_state_t s; Buf o2(outlen);
+        if (pos & 0x40000000) {
+            // the state object has an unfinished earlier session behind it (odd lengths absorbed and squeezed), then reinit
+            Buf j(Bytes(5 + pos % 29, 0x77)), jo(7 + pos % 23);
+            ascon_prf_init(&s, k.p); ascon_prf_absorb(&s, j.p, j.n);
+            if (pos & 0x20000000) ascon_prf_squeeze(&s, jo.p, jo.n);
+            ascon_prf_fixed_reinit(&s, k.p, (size_t)declared);
+        } else
         ascon_prf_fixed_init(&s, k.p, (size_t)declared);
         ascon_prf_absorb(&s, m.p, c1); ascon_prf_absorb(&s, m.p + c1, c2 - c1); ascon_prf_absorb(&s, m.p + c2, m.n - c2);
         ascon_prf_squeeze(&s, o2.nn(), oc); ascon_prf_squeeze(&s, o2.nn() + oc, outlen - oc); ascon_prf_free(&s);
